@@ -25,6 +25,7 @@
 static pthread_barrier_t bar;
 static atomic_int returned, refused, winner_idx, init_returned;
 static int mixed;
+static int distinct_args;
 static _Thread_local int my_idx;
 static int phase;
 
@@ -43,13 +44,15 @@ racer(void *arg)
 	my_idx = (int) (long) arg;
 	pthread_barrier_wait(&bar);
 	if (phase == 0) {
-		ovni_proc_init(1, "raceloom", 4242);
+		/* RACEDRV_ARGS: every racer passes its own pid (as threads that
+		 * disagree about the process would): still only one may win */
+		ovni_proc_init(1, "raceloom", distinct_args ? 4242 + my_idx : 4242);
 	} else if (mixed && (my_idx & 1)) {
 		/* RACEDRV_MIXED: odd racers of the second phase try to initialise
 		 * the process again while the others finalise it: the process is
 		 * ready, being finalised or gone, so every such call must be
 		 * refused */
-		ovni_proc_init(1, "raceloom", 4242);
+		ovni_proc_init(1, "raceloom", distinct_args ? 5000 + my_idx : 4242);
 		atomic_fetch_add(&init_returned, 1);
 		return NULL;
 	} else {
@@ -79,6 +82,7 @@ main(int argc, char *argv[])
 {
 	int n = argc > 1 ? atoi(argv[1]) : 4;
 	mixed = getenv("RACEDRV_MIXED") != NULL;
+	distinct_args = getenv("RACEDRV_ARGS") != NULL;
 	struct sigaction sa;
 	memset(&sa, 0, sizeof(sa));
 	sa.sa_handler = on_abort;
